@@ -323,6 +323,11 @@ const FIXED_SHAPES: &[&str] = &[
     "@urid?", "ltrimstr(1)", "startswith(\"a\")?", "endswith(1)?", "split(\"a\")?", "split(\"a\"; \"g\")?", "tojson | tojson", "[.] | tojson | fromjson",
     "def f: .; f", "def f(g): [g]; f(.[]?)", "def f($a; $b): $a + $b; f(1; 2)", "def f: def g: 3; g; f", "[.[]? as $x | $x]", "[.[]? as [$a] | $a]",
     "reduce range(3) as $i ([]; . + [$i])", "[foreach range(3) as $i (0; . + $i)]", "[range(3) as $x | range($x)]", ". as $d | [paths] | map(. as $p | $d | getpath($p))",
+    // generator-valued path components (Cartesian order of forks differs easily between evaluators)
+    ".[(0, 1):(3, 4)]?", ".[(1, 2):]?", ".[:(1, 2)]?", "[.[]?][(0, 1):(2, 3)]", ".a[(0, 1):(3, 4)]?", ".[(0, 1)]?", ".[(\"a\", \"b\")]?",
+    "[.[(0, 1):(2, 3)]?]", ".[(0, 1):(3, 4)]? | length", "{(\"a\", \"b\"): (1, 2)}", "[(1, 2) + (10, 20)]", "[(1, 2) * (3, 4) - (0, 1)]",
+    "[(1, 2) < (2, 1)]", "[(true, false) and (true, false)]", "[(null, 1) // (2, 3)]", "[limit((1, 2); (7, 8, 9))]", "[range((0, 1); (2, 3))]",
+    "[.[]? | length]", "[.. | length?]", "[.[]? | -(.)?]", "-0.0 | length", "[-0.0, 0.0, -0] | map(length)", "[-0.0] | .[] | length",
     "to_entries? | map(.key)", "[.[]? | select(type == \"object\") | keys[]]", "[keys?[]]", "keys? | .[0]", "[.[]?][0]", "try (.[]? |= error) catch .",
 ];
 
